@@ -91,6 +91,11 @@ func Build(self int, mods []ModSpec) []byte {
 	for g := 0; g < m.NGlob; g++ {
 		w.Globals = append(w.Globals, c.Cat(c.B(c.FuncRef, 1), ginit[g], c.B(0x0b)))
 	}
+	// the value an own function returns lives in a mutable i32 global of its instance, so that the function
+	// reads its module context (a call with a dangling context returns something else or faults)
+	for j := 0; j < m.NFun; j++ {
+		w.Globals = append(w.Globals, c.Cat(c.B(c.I32, 1), c.I32Const(constOf(self, j)), c.B(0x0b)))
+	}
 	// declarative segment: every function that ref.func may name
 	var decl [][]byte
 	for r := 0; r < m.nRec(); r++ {
@@ -112,7 +117,7 @@ func Build(self int, mods []ModSpec) []byte {
 	}
 	// own constant functions first: record index nImpRec()+j  <->  wasm index 1+nImpRec()+j
 	for j := 0; j < m.NFun; j++ {
-		add(fmt.Sprintf("f%d", j), tConst, c.I32Const(constOf(self, j)))
+		add(fmt.Sprintf("f%d", j), tConst, c.GlobalGet(uint32(m.NGlob+j)))
 	}
 	isRefable := func(r int) bool { return r < len(m.ImpF) || r >= m.nImpRec() }
 	// push the reference held by holder t (slot = local 0 for tables)
